@@ -42,13 +42,13 @@ CANDIDATES = {
               '{Mon} {Dord}, {Y}', '{Mon} {Dord} {Y}', '{D} {Mon} {Y}', '{Dord} of {Month} {Y}', '{Dord} of {Month}, {Y}',
               '{MonthCap} {D}, {Y}', '{MonCap} {D}, {Y}', '{Month} the {Dord}, {Y}', '{D}-{Mon}-{Y}', '{M}.{D}.{Y}',
               '{Y}.{MM}.{DD}', 'the {Dord} of {Month} {Y}'],
-    'es-es': NUM_DMY + ['{D} de {Month} de {Y}', '{D} {Month} {Y}', '{D} de {Month} {Y}', '{D} de {Month} del {Y}'],
-    'es-mx': NUM_DMY + ['{D} de {Month} de {Y}', '{D} {Month} {Y}', '{D} de {Month} {Y}', '{D} de {Month} del {Y}'],
-    'pt-br': NUM_DMY + ['{D} de {Month} de {Y}', '{D} {Month} {Y}', '{D} de {Month} {Y}'],
-    'fr-fr': NUM_DMY + ['{D} {Month} {Y}', 'le {D} {Month} {Y}', '{D} {Month}, {Y}'],
+    'es-es': NUM_DMY + ['{D} de {Month} de {Y}', '{D} {Month} {Y}', '{D} de {Month} {Y}', '{D} de {Month} del {Y}', '{DordC} de {Month} de {Y}'],
+    'es-mx': NUM_DMY + ['{D} de {Month} de {Y}', '{D} {Month} {Y}', '{D} de {Month} {Y}', '{D} de {Month} del {Y}', '{DordC} de {Month} de {Y}'],
+    'pt-br': NUM_DMY + ['{D} de {Month} de {Y}', '{D} {Month} {Y}', '{D} de {Month} {Y}', '{DordC} de {Month} de {Y}', '{DordC} de {Mon} de {Y}'],
+    'fr-fr': NUM_DMY + ['{D} {Month} {Y}', 'le {D} {Month} {Y}', '{D} {Month}, {Y}', '{DordC} {Month} {Y}', 'le {DordC} {Month} {Y}'],
     'de-de': NUM_DMY + ['{D}. {Month} {Y}', '{D} {Month} {Y}', '{D}. {MonthCap} {Y}'],
-    'it-it': NUM_DMY + ['{D} {Month} {Y}', 'il {D} {Month} {Y}', '{D} {Month}, {Y}'],
-    'nl-nl': NUM_DMY + ['{D} {Month} {Y}', '{D} {Mon} {Y}', '{Month} {D}, {Y}'],
+    'it-it': NUM_DMY + ['{D} {Month} {Y}', 'il {D} {Month} {Y}', '{D} {Month}, {Y}', '{DordC} {Month} {Y}'],
+    'nl-nl': NUM_DMY + ['{D} {Month} {Y}', '{D} {Mon} {Y}', '{Month} {D}, {Y}', '{DordC} {Month} {Y}'],
     'zh-cn': ['{Y}-{MM}-{DD}', '{Y}/{MM}/{DD}', '{Y}/{M}/{D}', '{Y}年{M}月{D}日', '{Y}年{M}月{D}号', '{Y}年{MM}月{DD}日',
               '{Y}.{MM}.{DD}', '{Y}-{M}-{D}'],
 }
@@ -63,6 +63,7 @@ CARRIERS = {
     'zh-cn': ['{}', '会议定在{}', '他出生于{}。'],
 }
 PROBES = [(2005, 3, 17), (2011, 10, 23), (1987, 6, 15)]
+PROBES_ORDINAL = [(2005, 3, 1), (2011, 10, 2), (1987, 6, 17)]      # ordinal day forms are mostly used for small days
 REF = datetime(2016, 11, 7, 10, 30, 0)
 
 
@@ -101,7 +102,8 @@ def main():
     for culture, cands in CANDIDATES.items():
         rows = []
         for lay in cands:
-            sup = all(ok_abs(families.render_layout(lay, y, m, d, culture), culture, y, m, d) for y, m, d in PROBES)
+            probes = PROBES_ORDINAL if 'DordC' in lay else PROBES
+            sup = all(ok_abs(families.render_layout(lay, y, m, d, culture), culture, y, m, d) for y, m, d in probes)
             cat = category(lay, culture)
             rows.append({'layout': lay, 'supported': bool(sup), 'category': cat, 'deciding': cat != 'extra'})
         layouts[culture] = rows
